@@ -133,7 +133,7 @@ Definition zset_by_rank (start0 stop0 : Z) (desc : bool) (z : zsetv) : option (l
                          else match l with [] => PNil | _ => PIdx (length l - 1)%nat end)
                    else (if start >? 1 then sl_by_rank start l
                          else match l with [] => PNil | _ => PIdx 0 end) in
-      let slice := stop - start in
+      let slice := wrap64 (stop - start) in   (* int64 subtraction: start can be size + MinInt64 *)
       (* walking more than len+1 nodes always ends in the nil dereference: cap the count *)
       if slice <? 0 then Some [] else sl_walk (Z.to_nat (Z.min slice (Z.of_nat (length l) + 2))) desc l first.
 
